@@ -6,7 +6,7 @@ evaluate(...)  compare all admissible sets x algorithms of one family.
 """
 import math, os, sys
 sys.path.insert(0, os.path.dirname(os.path.abspath(__file__)))
-import gnet, n08_ref, n08_gen, n08_run, n08_dangle
+import gnet, n08_ref, n08_gen, n08_run, n08_dangle, n08_iter
 from gnet import Obs
 from fractions import Fraction as Fr
 
@@ -139,8 +139,15 @@ def angdiff(a, b):
     return d
 
 
-def reduce_result(D, net, M, S, inv):
-    """digest of one run -> comparable record"""
+def is_iter(var):
+    return var is not None and var[0] == "iter"
+
+
+def reduce_result(D, net, M, S, inv, it=None):
+    """digest of one run -> comparable record.  it: None, or for a run with
+    linearization iterations dict(net=network as written, approx=<approximate>
+    of the result = last linearization point, iters=number of iterations,
+    gen=names of the datum generators, m0=sigma-apr)"""
     R = {"cls": D["cls"], "rc": D["rc"], "nonfinite": D["nonfinite"], "err": D.get("err"),
          "removed": D.get("removed"), "diag": D.get("diag")}
     if D["cls"] != "adj":
@@ -181,8 +188,52 @@ def reduce_result(D, net, M, S, inv):
         a = D["adjusted"].get(p.id, {})
         flags.append((p.id, bool(a.get("con_x")), bool(a.get("con_z"))))
     R["flags"] = flags
-    # corrections of the constrained coordinates against the exact null space
     P = {p.id: p for p in net.points}
+    if it is not None:
+        # corrections of the constrained coordinates in the LAST linearization: adjusted - last
+        # approximate value (printed with 6 decimals), against the datum generators at that point
+        R["iters"] = it["iters"]
+        A = {}
+        for p in net.points:
+            a = it["approx"].get(p.id, {})
+            A[p.id] = (a.get("x", a.get("X")), a.get("y", a.get("Y")), a.get("z", a.get("Z")))
+        dx = []; okA = True
+        for j in S:
+            t, pid = M.cols[j]
+            a = A[pid]["xyz".index(t)]
+            if a is None: okA = False; break
+            dx.append(C[pid]["xyz".index(t)] - a)
+        R["approx_missing"] = not okA
+        orth = 0.0; otol = TOL_ORTH
+        if okA:
+            for g in it["gen"]:
+                ns = [n08_iter.generator_value(g, M.cols[j][0], A[M.cols[j][1]]) for j in S]
+                mx = max((abs(a) for a in ns), default=0.0)
+                if mx == 0: continue
+                orth = max(orth, abs(sum(a * b for a, b in zip(ns, dx))) / mx)
+                otol = max(otol, TOL_ORTH + n08_iter.ROUND_APPROX * sum(abs(a) for a in ns) / mx)
+            R["dxnorm"] = math.sqrt(sum(v * v for v in dx))
+        R["orth"] = orth; R["orth_tol"] = otol
+        # translations are the same null vectors at every linearization point and every iteration
+        # regularises over the same set S: the TOTAL correction (adjusted - given approximate value)
+        # of the constrained coordinates sums to zero per axis, at full precision
+        o0 = 0.0
+        for ax in "xyz":
+            if ("t" + ax) not in it["gen"]: continue
+            tot = [C[M.cols[j][1]]["xyz".index(ax)] - it["given"][M.cols[j][1]]["xyz".index(ax)] for j in S if M.cols[j][0] == ax]
+            if tot: o0 = max(o0, abs(sum(tot)))
+        R["orth0"] = o0
+        R["dx0norm"] = math.sqrt(sum((C[M.cols[j][1]]["xyz".index(M.cols[j][0])] - it["given"][M.cols[j][1]]["xyz".index(M.cols[j][0])]) ** 2 for j in S))
+        step = 0.0
+        for p in net.points:
+            for k in range(3):
+                if C[p.id][k] is not None and A[p.id][k] is not None:
+                    step = max(step, abs(C[p.id][k] - A[p.id][k]))
+        R["laststep"] = step
+        R["miscl"], R["E"] = n08_iter.misclosure(it["net"], C, D["obs"], it["m0"])
+        R["maxcorr"] = 0.0
+        return R
+    # corrections of the constrained coordinates against the exact null space
     dx = []
     for j in S:
         t, pid = M.cols[j]
@@ -213,14 +264,35 @@ def _vtuple(var):
 
 def build_net(tier, fi, mask, var=None):
     """-> (family network with the constraint set applied, network written to
-    the input = the same + the dangling point of the variant)"""
+    the input = the same + the dangling point of the variant / with the poor
+    approximate coordinates of the iterated variant)"""
     f, M, slots, inv = _family(tier, fi)
     base = n08_gen.apply_constraints(f.net, slots, mask)
     net = base
-    if var is not None:
+    if is_iter(var):
+        net = n08_iter.apply(base, _vtuple(var))
+    elif var is not None:
         net, pid = n08_dangle.apply(base, _vtuple(var))
     gnet.fill_values(net)
     return base, net
+
+
+def _run_iterated(name, gkf, wd, exe):
+    """like n08_run.run_case, iterations enabled; additionally the last
+    linearization point and the number of iterations of every run"""
+    import re
+    out = {}; extra = {}
+    nm = "c%d_%s" % (os.getpid(), re.sub(r"\W", "_", name)[:60])
+    for alg in ALGS:
+        r = gnet.run_gama(exe, gkf, wd, nm, ["--algorithm", alg] + n08_iter.RUN_ARGS, want=("xml", "text"))
+        out[alg] = n08_run.digest(r)
+        ex = {"approx": {}, "iters": None}
+        if out[alg]["cls"] == "adj":
+            ex["approx"] = gnet.parse_result(r.xml).approx
+            m = re.search(r"<linearization-iterations>\s*(\d+)", r.xml)
+            ex["iters"] = int(m.group(1)) if m else None
+        extra[alg] = ex
+    return out, extra
 
 
 def worker(item):
@@ -236,10 +308,18 @@ def worker(item):
     base, net = build_net(tier, fi, mask, var)
     gkf = gnet.to_gkf(net)
     name = "%s_%d_%x" % (tier[0], fi, mask) + ("" if var is None else "_" + "_".join(str(v) for v in var))
+    out["expect"] = (M.d, M.m - M.n + M.d, M.n, M.m)
+    if is_iter(var):
+        res, extra = _run_iterated(name, gkf, wd, exe)
+        out["res"] = {}
+        for alg in ALGS:
+            it = {"net": net, "approx": extra[alg]["approx"], "iters": extra[alg]["iters"], "gen": f.gen,
+                  "m0": float(net.params["sigma-apr"]), "given": n08_iter.given_approx(gkf)}
+            out["res"][alg] = reduce_result(res[alg], base, M, S, inv, it)
+        return out
     key, res = n08_run.run_case((name, gkf, wd, exe, ARGS))
     # the dangling point must be removed: everything is reduced against the family network
     out["res"] = {alg: reduce_result(res[alg], base, M, S, inv) for alg in ALGS}
-    out["expect"] = (M.d, M.m - M.n + M.d, M.n, M.m)
     if var is not None:
         pid = n08_dangle.PID[var[3]]
         out["exp_removed"] = [list(t) for t in n08_dangle.expected_removed(var)]
@@ -256,6 +336,8 @@ def gkf_of(tier, fi, mask, var=None):
 
 
 def case_name(slots, mask, var=None):
+    if is_iter(var):
+        return n08_gen.mask_name(slots, mask) + " " + n08_iter.label(var)
     return n08_gen.mask_name(slots, mask) + ("" if var is None else " + " + n08_dangle.label(var))
 
 
@@ -314,9 +396,29 @@ def dangle_plan(tier, fi):
     return [(m, v) for m in masks for v in V]
 
 
+def iter_plan(tier, fi):
+    """the (constraint set, iterated variant) pairs of one family: sz / sd
+    networks without fixed point.  quick: offsets 0 on all admissible sets, at
+    most 150 (evenly spaced in mask order); thorough: offsets 0 on ALL
+    admissible sets, offsets 1 on 64 evenly spaced sets of the complete
+    networks with sign pattern 0."""
+    f, M, slots, inv = _family(tier, fi)
+    if not n08_iter.applies(f):
+        return []
+    adm = admissible_masks(tier, fi)
+    if not adm:
+        return []
+    if tier != "thorough":
+        return [(m, ("iter", 0)) for m in _spaced(adm, 150)]
+    out = [(m, ("iter", 0)) for m in adm]
+    if ".dNone" in f.name and ".p0." in f.name:
+        out += [(m, ("iter", 1)) for m in _spaced(adm, 64)]
+    return out
+
+
 def plan_worker(item):
     tier, fi = item
-    return fi, dangle_plan(tier, fi)
+    return fi, dangle_plan(tier, fi) + iter_plan(tier, fi)
 
 
 def famkind(name):
@@ -373,7 +475,7 @@ def evaluate(tier, fi, results, report, outcome):
                        cs, [alg])
                 continue
             got_removed = [tuple(t) for t in (r.get("removed") or [])]
-            if var is None:
+            if var is None or is_iter(var):
                 if got_removed:
                     report("C08|points-removed|%s|%s" % (kind, alg), "%s %s removed %s" % (f.name, cn, r["removed"]), cs, [alg])
                     continue
@@ -400,10 +502,31 @@ def evaluate(tier, fi, results, report, outcome):
                 if (pid, "xy") in want and want[(pid, "xy")] != cx or (pid, "z") in want and want[(pid, "z")] != cz:
                     report("C08|constraint-marks|%s|%s" % (kind, alg), "%s %s point %s printed XY=%s Z=%s" % (f.name, cn, pid, cx, cz), cs, [alg])
                     break
-            if r["orth"] > TOL_ORTH:
-                report("C08|not-minimal-over-constrained|%s|%s" % (kind, alg),
-                       "%s %s: corrections of the constrained coordinates have a component %.3e m along a datum generator restricted to them (|dx_S|=%.3e m)" % (
-                           f.name, cn, r["orth"], r["dxnorm"]), cs, [alg])
+            if is_iter(var):
+                outcome("%s|iterated|iterations=%s" % (kind, r.get("iters")))
+                bad = []
+                if r.get("approx_missing"): bad.append("a constrained coordinate is missing in <approximate>")
+                if r.get("iters") is None or r["iters"] >= n08_iter.MAX_ITER: bad.append("%s iterations (limit %d)" % (r.get("iters"), n08_iter.MAX_ITER))
+                if r.get("miscl") is None or r["miscl"] > n08_iter.TOL_CONV:
+                    bad.append("adjusted observations computed from the adjusted coordinates differ from observed + residual by %s m as a position (bound %.0e = gama's own stopping rule 5e-7 + 20 %%)" % (
+                        "%.3e" % r["miscl"] if r.get("miscl") is not None else "?", n08_iter.TOL_CONV))
+                if r.get("laststep", 0.0) > n08_iter.TOL_STEP: bad.append("last replacement of the approximate coordinates %.3e m (bound %.0e)" % (r["laststep"], n08_iter.TOL_STEP))
+                if bad:
+                    report("C08|iterated-run-not-converged|%s|%s" % (kind, alg), "%s %s: %s" % (f.name, cn, "; ".join(bad)), cs, [alg])
+                    # still compared with the others in residuals, adjusted observations and shape (fixed tolerances);
+                    # the tolerances of the iterated group rest on convergence, so it stays out of that group
+                    if r.get("miscl") is not None and not r.get("approx_missing"):
+                        r["nonconv"] = True
+                        runs.append((tag, r)); byrun[tag] = r
+                    continue
+            if is_iter(var) and r["orth0"] > TOL_ORTH:
+                report("C08|not-minimal-over-constrained|%s|iterated-total|%s" % (kind, alg),
+                       "%s %s: the total corrections (adjusted - given approximate value) of the constrained coordinates do not sum to zero along an axis: %.3e m (tolerance %.0e; every iteration regularises over the same set, translations are null vectors at every linearization point; |dx_S|=%.3e m)" % (
+                           f.name, cn, r["orth0"], TOL_ORTH, r["dx0norm"]), cs, [alg])
+            if r["orth"] > r.get("orth_tol", TOL_ORTH):
+                report("C08|not-minimal-over-constrained|%s|%s" % (kind + ("|iterated" if is_iter(var) else ""), alg),
+                       "%s %s: corrections of the constrained coordinates%s have a component %.3e m (tolerance %.1e) along a datum generator restricted to them (|dx_S|=%.3e m)" % (
+                           f.name, cn, " in the last linearization (adjusted - last approximate value)" if is_iter(var) else "", r["orth"], r.get("orth_tol", TOL_ORTH), r["dxnorm"]), cs, [alg])
             if r["maxcorr"] > 0.004:
                 report("C08|harness|correction-too-large|%s" % kind, "%s %s max correction %.4f m (generator must keep the linearisation error negligible)" % (f.name, cn, r["maxcorr"]), cs, [alg])
             runs.append((tag, r))
@@ -412,7 +535,7 @@ def evaluate(tier, fi, results, report, outcome):
     # dangling point: the same constraint set with / without the point, and with the point
     # constrained / free, are the same network with the same datum -> the same coordinates
     for (mask, alg, var), r in runs:
-        if var is None:
+        if var is None or is_iter(var):
             continue
         partners = [("without the dangling point", (mask, alg, None), "dangling-point-changes-result")]
         if n08_dangle.is_constrained(var):
@@ -432,8 +555,16 @@ def evaluate(tier, fi, results, report, outcome):
         return len(runs)
     nbase = sum(1 for t, _ in runs if t[2] is None)
     outcome("%s|d=%d|adm-sets=%d|dof=%d|pvv=%s" % (kind, M.d, nbase // 4, runs[0][1]["scal"][1], "0" if runs[0][1]["pvv"] < 1e-6 else ">0"))
+    # runs with the lattice linearization point (one linear problem, the datum picks among its
+    # minimizers) / runs with linearization iterations (one non-linear problem, every run
+    # converged to it within TOL_CONV)
+    runs_lin = [(t, r) for t, r in runs if not is_iter(t[2])]
+    runs_it = [(t, r) for t, r in runs if is_iter(t[2]) and not r.get("nonconv")]
 
-    def cmp_vector(name, getter, tolf, clause, circ=None):
+    def cmp_vector(name, getter, tolf, clause, circ=None, group=None):
+        runs = group
+        if len(runs) < 2:
+            return
         n = len(getter(runs[0][1]))
         for t, r in runs:
             if len(getter(r)) != n:
@@ -463,13 +594,38 @@ def evaluate(tier, fi, results, report, outcome):
                    [(tlo[0], tlo[2]), (thi[0], thi[2])], [tlo[1], thi[1]])
 
     kinds = runs[0][1]["kinds"]
-    cmp_vector("residual", lambda r: r["res"], lambda i, v: TOL_ANG if kinds[i] == "a" else TOL_LEN, "residuals")
-    cmp_vector("adjusted observation", lambda r: r["adj"], lambda i, v: TOL_ANG if kinds[i] == "a" else TOL_LEN, "adjusted-observations", circ=lambda i: kinds[i] == "a")
-    cmp_vector("stdev of adjusted observation", lambda r: r["sd"], lambda i, v: TOL_SD + 1e-8 * abs(v[0][1]), "adjobs-stdev")
+    # residuals, adjusted observations and the shape of the adjusted points: the same for ALL runs,
+    # whether the solution was reached from the lattice (no iteration) or from poor approximate values.
+    # A converged iterated run is within its measured misclosure e (<= gama's stopping rule) of the
+    # non-linear solution; angles: e is a position, sights >= 100 m -> e / 100 m rad = e * 0.64 gon
+    emax = max((r["miscl"] for _, r in runs_it), default=0.0)
+    XL = n08_iter.K_MISCL * emax; XA = n08_iter.K_MISCL * emax * 0.64
+    cmp_vector("residual", lambda r: r["res"], lambda i, v: TOL_ANG + XA if kinds[i] == "a" else TOL_LEN + XL, "residuals", group=runs)
+    cmp_vector("adjusted observation", lambda r: r["adj"], lambda i, v: TOL_ANG + XA if kinds[i] == "a" else TOL_LEN + XL, "adjusted-observations", circ=lambda i: kinds[i] == "a", group=runs)
+    cmp_vector("invariant", lambda r: r["inv"], lambda i, v: TOL_ANG if inv[i].kind == "angle" else TOL_LEN, "shape-of-adjusted-points", circ=lambda i: inv[i].kind == "angle", group=runs_lin)
+    if any(is_iter(t[2]) for t, _ in runs):
+        # the invariants were selected by their gradient at the lattice; the iterated runs start from a datum
+        # that is tilted / shifted by metres, so only quantities invariant under the FINITE motions count:
+        # all of them if the datum group is translations + rotation about z, slope distances if it contains tilts
+        tilt = bool({"rx", "ry"} & set(f.gen or []))
+        ridx = [i for i, o in enumerate(inv) if o.kind == "s-distance" or not tilt]
+        cmp_vector("invariant", lambda r: [r["inv"][i] for i in ridx], lambda i, v: TOL_ANG + XA if inv[ridx[i]].kind == "angle" else TOL_LEN + XL,
+                   "shape-of-adjusted-points", circ=lambda i: inv[ridx[i]].kind == "angle", group=runs)
+    # quantities that depend on the linearization point / on sigma-apr: within each group
+    cmp_vector("stdev of adjusted observation", lambda r: r["sd"], lambda i, v: TOL_SD + 1e-8 * abs(v[0][1]), "adjobs-stdev", group=runs_lin)
     for j, nm in enumerate(("qrr", "f", "std-residual")):
-        cmp_vector(nm, lambda r, j=j: [q[j] for q in r["q3"]], lambda i, v: TOL_3DEC, "obs-statistics")
-    cmp_vector("[pvv]", lambda r: [r["pvv"]], lambda i, v: TOL_PVV * abs(v[0][1]) + 1e-9, "pvv")
-    cmp_vector("invariant", lambda r: r["inv"], lambda i, v: TOL_ANG if inv[i].kind == "angle" else TOL_LEN, "shape-of-adjusted-points", circ=lambda i: inv[i].kind == "angle")
+        cmp_vector(nm, lambda r, j=j: [q[j] for q in r["q3"]], lambda i, v: TOL_3DEC, "obs-statistics", group=runs_lin)
+    cmp_vector("[pvv]", lambda r: [r["pvv"]], lambda i, v: TOL_PVV * abs(v[0][1]) + 1e-9, "pvv", group=runs_lin)
+    if runs_it:
+        # cofactors are taken at the last linearization point, which is within TOL_STEP of the solution
+        smax = max(r["laststep"] for _, r in runs_it)
+        cmp_vector("stdev of adjusted observation", lambda r: r["sd"], lambda i, v: TOL_SD + (1e-8 + n08_iter.K_SD * smax / 100.0) * abs(v[0][1]), "adjobs-stdev|iterated", group=runs_it)
+        for j, nm in enumerate(("qrr", "f", "std-residual")):
+            # cofactor-based like the standard deviations: same relative allowance on top of the printed decimals
+            cmp_vector(nm, lambda r, j=j: [q[j] for q in r["q3"]], lambda i, v: TOL_3DEC + n08_iter.K_SD * smax / 100.0 * abs(v[0][1]), "obs-statistics|iterated", group=runs_it)
+        # [pvv] of the linearized model vs the non-linear one: |r - e|^2 - |r|^2 <= 2 (|r| + E) E + E^2, E = weighted misclosure
+        slack = max(2 * (math.sqrt(r["pvv"]) + r["E"]) * r["E"] + r["E"] ** 2 for _, r in runs_it)
+        cmp_vector("[pvv]", lambda r: [r["pvv"]], lambda i, v: TOL_PVV * abs(v[0][1]) + 1e-9 + 2 * slack, "pvv|iterated", group=runs_it)
     return len(runs)
 
 
@@ -505,10 +661,15 @@ def eval_family(item):
     if adm:
         sample = "%s: defect %d, %d of %d constraint sets admissible, e.g. {%s}; invariants compared: %s" % (
             f.name, M.d, len(adm), 1 << k, mask_name(slots, adm[len(adm) // 2]), ", ".join(invariant_names(tier, fi)[:6]))
-        nv = [w for w in results if w.get("var") is not None]
+        nv = [w for w in results if w.get("var") is not None and not is_iter(w["var"])]
         if nv:
             w = nv[len(nv) // 2]
             sample += "; %d dangling-point variants, e.g. {%s}" % (len(nv), case_name(slots, w["mask"], w["var"]))
+        ni = [w for w in results if is_iter(w.get("var"))]
+        if ni:
+            w = ni[len(ni) // 2]
+            its = sorted({w2["res"][a].get("iters") for w2 in ni for a in ALGS if w2.get("res")}, key=str)
+            sample += "; %d constraint sets also with poor approximate coordinates and iterations (%s iterations), e.g. {%s}" % (len(ni), "/".join(str(i) for i in its), case_name(slots, w["mask"], w["var"]))
     return {"fi": fi, "viol": viol, "outcomes": outs, "nruns": nr, "edges": edges, "sample": sample}
 
 
